@@ -55,6 +55,15 @@ type Contract struct {
 	used     bool
 }
 
+// isOpaque: callers never look into the function (explicit directive, or a contract that only
+// states a trusted partial frame).
+func (c *Contract) isOpaque() bool {
+	if c.opaque {
+		return true
+	}
+	return len(c.keeps) > 0 && len(c.ensures) == 0 && len(c.requires) == 0 && !c.hasAssgn && !c.trusted && !c.modular && !c.inline
+}
+
 type letDef struct {
 	name string
 	expr Expr
@@ -293,7 +302,6 @@ func (cs *ContractSet) LoadFile(pkgPath, path string) error {
 				for _, k := range strings.Split(strings.TrimPrefix(t, "keeps "), ",") {
 					cur.keeps = append(cur.keeps, strings.TrimSpace(k))
 				}
-				cur.opaque = true
 			} else if t == "inline" {
 				cur.inline = true
 			} else if t == "trusted" {
